@@ -1208,6 +1208,16 @@ func (env *Env) specCall(sf *SpecFunc, args []Value, pol int) Value {
 			}
 			d, _, vs := mapKeys(m)
 			keys = append([]string{d}, vs...)
+		} else if strings.HasPrefix(rk, "fields(") && strings.HasSuffix(rk, ")") {
+			// every field of every object of that struct type
+			ft, err := eng.parseType(rk[7:len(rk)-1], specPkg)
+			if err != nil {
+				cfail("spec %s: reads %s: %v", sf.Name, rk, err)
+			}
+			if _, ok := ft.Underlying().(*types.Struct); !ok {
+				cfail("spec %s: reads %s: not a struct type", sf.Name, rk)
+			}
+			keys = refKeys(ft)
 		} else if strings.HasPrefix(rk, "elems(") && strings.HasSuffix(rk, ")") {
 			// elems(p) for a slice parameter p: only the backing array of p
 			isParam := false
